@@ -127,7 +127,7 @@ class StaticPlacementPass(BasePass):
         if len(placement) == logical_graph.num_qudits and all(
             placement[e[1]] in physical_graph.get_neighbors_of(placement[e[0]])
             for e in logical_graph
-        ):
+        ) and physical_graph.get_subgraph(placement).is_fully_connected():
             data.placement = placement
             _logger.info(f'Placed qudits on {data.placement}')
         else:
